@@ -34,7 +34,9 @@ Section Commit.
          groups after a failing `assert converged.all()` (the exception leaves them untouched) *)
   | ReadResult          (* Result / _Calc_psi : only __Get_state (lazy zeros) *)
   | Save                (* Save_Iter *)
-  | SetIter (i : nat).  (* Set_Iter(i) *)
+  | SetIter (i : nat)   (* Set_Iter(i) *)
+  | ResetMesh.          (* _Init_internal_variables: the mesh is replaced, both dicts are emptied
+                           (same as __init__); the saved iterations stay in the base class *)
 
   Definition exec (s : sim) (o : op) : sim :=
     match o with
@@ -49,12 +51,13 @@ Section Commit.
         | Some h => mkSim h h (hist s)
         | None => s
         end
+    | ResetMesh => mkSim (fun _ => None) (fun _ => None) (hist s)
     end.
 
   Definition run (s : sim) (ops : list op) : sim := fold_left exec ops s.
 
   Definition no_commit (o : op) : Prop :=
-    match o with Assemble _ _ | ReadResult => True | Save | SetIter _ => False end.
+    match o with Assemble _ _ | ReadResult => True | Save | SetIter _ | ResetMesh => False end.
 
   Lemma exec_no_commit : forall s o g, no_commit o -> committed (exec s o) g = committed s g.
   Proof.
@@ -98,7 +101,14 @@ Section Commit.
       + exists l; reflexivity.
       + exists (z s :: l). rewrite <- app_assoc. reflexivity.
       + destruct (nth_error (hist s) i); simpl; exists l; reflexivity.
+      + exists l; reflexivity.
   Qed.
+
+  (* replacing the mesh = a fresh material history: every group is virgin again, no trial state *)
+  Theorem reset_is_fresh : forall s g,
+      committed (exec s ResetMesh) g = zeros /\ z (exec s ResetMesh) g = None /\
+      hist (exec s ResetMesh) = hist s.
+  Proof. intros; repeat split; reflexivity. Qed.
 
   (* Save replaces __zOld by (a copy of) __z wholesale.  It cannot lose committed history:
      from a fresh simulation, a group missing from __z has a virgin committed state. *)
@@ -113,7 +123,8 @@ Section Commit.
       - destruct (reached g); [discriminate|]. apply Hs.
       - intro Hz. specialize (Hs g Hz). unfold committed in Hs. exact Hs.
       - intro Hz; rewrite Hz; reflexivity.
-      - destruct (nth_error (hist s) i); simpl; [intro Hz; rewrite Hz; reflexivity | apply Hs]. }
+      - destruct (nth_error (hist s) i); simpl; [intro Hz; rewrite Hz; reflexivity | apply Hs].
+      - reflexivity. }
     intros ops. apply H. intros g _. reflexivity.
   Qed.
 
